@@ -269,7 +269,14 @@ class Seq:
                     continue
                 elif op == "mul_num":
                     k = r.choice([0, 1, 2.5, -1, r.uniform(-3, 3)])
-                    res = a * k if r.random() < 0.5 else k * a
+                    if r.random() < 0.35:
+                        # a number taken out of an array or a table column is a numpy scalar of that column's type
+                        # (values exactly representable in every one of these types)
+                        k = r.choice([np.int64, np.int32, np.float32, np.float64, np.int16, np.uint8])(r.choice([0, 1, 2, 3]))
+                        self.numpy_multipliers = getattr(self, "numpy_multipliers", 0) + 1
+                        res = a * k
+                    else:
+                        res = a * k if r.random() < 0.5 else k * a
                     self.check_result(op, res, labels(a), is_series(a), [a], [sa])
                 elif op == "div_num":
                     k = r.choice([1, 2.5, -1, r.uniform(0.1, 3)])
